@@ -41,6 +41,14 @@ Events (JSON lists)
 ``['tick-dbfault']``        one ``farm.dispatch()`` during which the data base is down: every ``dawgie.db.next()``
                             raises (fault injection; offered only when EventCfg.db_faults allows it and a job
                             may ask for a run id; the step record carries ``db_fault_hits``)
+``['reload']``              the pipeline reloads in the same process: ``schedule.build`` is called again with the
+                            factories / version tables of the initial load, exactly the call ``Sim.reset`` makes
+                            (what ``FSM.load -> FSM._pipeline`` does after an update).  A new task graph replaces
+                            the old one; the farm is left as it is.  Offered only when EventCfg.reloads allows it
+                            and the farm is quiet - nothing handed to a worker, nothing queued for one - which is
+                            what the FSM waits for before it reloads (``wait_for_crew``; in such a state the
+                            ``farm.clear()`` of ``FSM.load`` changes nothing but the idle workers, who register
+                            again).  Disabled by default (reloads=0: c01, c02, c04, c05 never see it).
 ``['noop']``                nothing happens (lets an oracle look at the state right after the load)
 ``['expect-idle']``         nothing happens; marks the end of a history that was run to quiescence (workers
                             always answered, no further external event) so the oracle can check the end state
@@ -88,6 +96,39 @@ import pydot  # noqa: E402
 
 for _m in (S, F, dawgie.pl.dag, CH, M):
     assert _m.__file__.startswith(REPO + '/Python/'), _m.__file__
+
+
+
+def _containers(mod):
+    '''the module-level builtin containers of `mod` (name -> shallow copy), taken at import time'''
+    return {
+        k: type(v)(v)
+        for k, v in vars(mod).items()
+        if type(v) in (dict, list, set) and not k.startswith('__')
+    }
+
+
+# Sim.reset() stands for the first load of a NEW pipeline process: whatever schedule / farm keep in module
+# level containers goes back to its import-time content (on the reference tree this is exactly what reset()
+# clears by hand; the point is that nothing survives from the universe simulated before in this process,
+# so that a violation found here reproduces in a fresh process).  A 'reload' event does NOT do this.
+_PRISTINE = {S: _containers(S), F: _containers(F)}
+
+
+def _fresh_process_state():
+    for mod, table in _PRISTINE.items():
+        for name, val in table.items():
+            cur = getattr(mod, name, None)
+            if type(cur) is not type(val):
+                setattr(mod, name, type(val)(val))
+            elif cur != val:
+                cur.clear()
+                (cur.extend if isinstance(cur, list) else cur.update)(val)
+        for name, cur in list(vars(mod).items()):
+            # containers bound after import (not known at import time): empty them
+            if name not in table and type(cur) in (dict, list, set) and not name.startswith('__') and cur:
+                cur.clear()
+
 
 ALL = '__all__'
 VALUES = ('p', 'q')
@@ -625,6 +666,7 @@ class EventCfg:
         timers=False,
         outcomes=('S', 'Sp', 'Sq', 'Spq', 'F', 'I'),
         db_faults=0,
+        reloads=0,
     ):
         self.run_targets = [list(t) for t in run_targets]
         self.run_nodes = run_nodes
@@ -633,6 +675,7 @@ class EventCfg:
         self.timers = timers
         self.outcomes = list(outcomes)
         self.db_faults = int(db_faults)  # faulty dispatch ticks offered per history
+        self.reloads = int(reloads)  # reloads (schedule.build again in the same process) offered per history
 
 
 class Sim:
@@ -656,6 +699,7 @@ class Sim:
         self.db_fault = False
         self.db_fault_hits = 0
         self.faults_used = 0
+        self.reloads_used = 0
         self.reset()
 
     # ---- life cycle -------------------------------------------------------------------------------------
@@ -677,6 +721,7 @@ class Sim:
 
     def reset(self):
         self._activate()
+        _fresh_process_state()
         F.clear()
         F._reject.clear()
         F._repeat.clear()
@@ -694,15 +739,24 @@ class Sim:
         self.db_fault = False
         self.db_fault_hits = 0
         self.faults_used = 0
+        self.reloads_used = 0
+        self._load()
+        for _ in range(self.u.workers):
+            self._register()
+        return
+
+    def _load(self):
+        '''schedule.build with this universe's factories and version tables (initial load and every reload)'''
         latest = [{self.spec.tags[i]: '1.0.0' for i in self.u.init}, {}, {}]
         S.build(self.facs, latest, [{}, {}, {}, {}])
         self.nodes = {}
         for r in S.ae.at:
             self._walk(r)
         assert sorted(self.nodes) == sorted(self.spec.tags), (sorted(self.nodes), self.spec.tags)
-        for _ in range(self.u.workers):
-            self._register()
-        return
+
+    def farm_quiet(self):
+        '''nothing handed to a worker and nothing queued for one (what FSM.wait_for_crew waits for)'''
+        return not (F._busy or F._cluster or F._cloud or F._jobs or F._reject or F._repeat or self.running)
 
     def _walk(self, n):
         if n.tag in self.nodes:
@@ -831,6 +885,7 @@ class Sim:
             tuple(sorted((m.jobid, m.target or ALL, rank[m.runid]) for m in self.running)),
             len(F._workers),
             self.faults_used,
+            self.reloads_used,
         )
 
     # ---- snapshot / restore -----------------------------------------------------------------------------
@@ -864,6 +919,7 @@ class Sim:
             'runid_counter': self.runid_counter,
             'incarnation': self.incarnation,
             'faults_used': self.faults_used,
+            'reloads_used': self.reloads_used,
         }
 
     def restore(self, s):
@@ -906,6 +962,7 @@ class Sim:
         self.runid_counter = s['runid_counter']
         self.incarnation = s['incarnation']
         self.faults_used = s.get('faults_used', 0)
+        self.reloads_used = s.get('reloads_used', 0)
         self.db_fault = False
         if self.chron_dirty:
             self._wipe_chron()
@@ -932,6 +989,8 @@ class Sim:
             F._jobs or any(n.get('todo') for n in self.nodes.values())
         ):
             evs.append(['tick-dbfault'])
+        if self.reloads_used < cfg.reloads and self.farm_quiet():
+            evs.append(['reload'])
         seen = collections.Counter()
         for m in sorted(self.running, key=lambda m: (m.jobid, m.target or ALL, m.runid)):
             u = unit_of(m)
@@ -975,6 +1034,10 @@ class Sim:
                     rec['db_fault_hits'] = self.db_fault_hits
             elif kind == 'reply':
                 self._reply(ev, rec)
+            elif kind == 'reload':
+                self.reloads_used += 1
+                rec['farm_quiet'] = self.farm_quiet()
+                self._load()  # the live graph is the new one from here on (self.nodes follows it)
             elif kind in ('noop', 'expect-idle'):
                 pass  # observe the state as it is (used to look at the state right after the load)
             else:
@@ -1327,6 +1390,78 @@ def walk(sim, monitor, cfg, rng, length, result, bias=None, drain_outcomes=None)
         quiescent, hist = drain(sim, monitor, rng, result, hist, drain_outcomes)
     result.walks += 1
     return hist, quiescent
+
+
+def run_scripts(job, monitor_factory):
+    '''one universe, a list of scripted histories; each is run linearly from the initial state (Sim.reset, no
+    snapshot/restore, so what a history shows does not depend on the histories run before it) and is fully
+    determined by the script - no seed.  `job`: universe, cfg (EventCfg kwargs: which optional events are
+    enabled), scripts, deadline, sample.  A script is a list of steps:
+
+    * a concrete event (['run', i, [targets]], ['tick'], ['reload'], ['noop'] ...): executed if it is enabled in
+      the current state (Sim.events), otherwise the rest of the script is dropped;
+    * ['reply*', outcome]: the first in-flight unit (sorted) answers with `outcome`; skipped if nobody works;
+    * ['drain', outcome, n]: workers always answer `outcome`, no external event, at most n events: reply of the
+      first in-flight unit, else a dispatch tick while something is pending; ends at quiescence or when a tick
+      changes nothing.
+
+    The concrete events really executed are the history recorded with a violation (generic_replay re-runs it).'''
+    u = Universe.from_json(job['universe'])
+    cfg = EventCfg(**job.get('cfg', {}))
+    res = Result()
+    sim = Sim(u)
+    ulabel = u.label()
+    try:
+        mon = monitor_factory(u)
+
+        def do(ev, hist):
+            skey = (sim.key(), mon.key())
+            rec = sim.step(ev)
+            res.cases += 1
+            res.distinct.add(_h((ulabel, skey, json.dumps(ev))))
+            hist.append(ev)
+            for v in mon.after(sim, ev, rec):
+                res.add_violation(u, list(hist), v)
+
+        def first_reply(outcome):
+            ms = sorted(sim.running, key=lambda m: (m.jobid, m.target or ALL, m.runid))
+            return ['reply', ms[0].jobid, ms[0].target or ALL, 0, outcome] if ms else None
+
+        for k, script in enumerate(job['scripts']):
+            if time.time() > job['deadline']:
+                res.truncated = True
+                break
+            sim.reset()
+            mon.reset()
+            hist = []
+            for stp in script:
+                if stp[0] == 'reply*':
+                    ev = first_reply(stp[1])
+                    if ev is not None:
+                        do(ev, hist)
+                elif stp[0] == 'drain':
+                    for _ in range(stp[2]):
+                        ev = first_reply(stp[1])
+                        if ev is None:
+                            if sim.is_idle():
+                                break
+                            ev = ['tick']
+                        key0 = sim.key()
+                        do(ev, hist)
+                        if ev[0] == 'tick' and sim.key() == key0 and not sim.running:
+                            break  # stuck: the tick changed nothing and nobody is working
+                else:
+                    ev = [list(x) if isinstance(x, (list, tuple)) else x for x in stp]
+                    if ev[0] not in ('noop', 'expect-idle') and ev not in sim.events(cfg):
+                        break
+                    do(ev, hist)
+            res.walks += 1
+            res.max_depth = max(res.max_depth, len(hist))
+            if k == 0 and job.get('sample'):
+                res.samples.append({'universe': u.to_json(), 'history': hist})
+    finally:
+        sim.close()
+    return res
 
 
 def replay_history(universe, history, monitor_factory, tmp=None):
